@@ -6,6 +6,7 @@ EXTENDS Naturals, Sequences, FiniteSets, TLC, Json
     x.twice_a()          a method call without arguments          = 2 * a
     x.plus(1)            a method call with a literal argument    = a + 1
     s                    a nested query used as a variable:  s = an(entity(z, z.a == 0))  with z over all objects
+    x.a  (bare)          a truth-valued attribute used directly as a condition, also next to comparisons over the same attribute
  Layer R: the satisfying assignments of (x, y, s) with s ranging over the answers of the nested query.
  ***************************************************************************************************)
 VARIABLE cond
@@ -20,8 +21,11 @@ TAtoms == { Cmp("eq", <<"index", "x", "pair", 1>>, L(1)), Cmp("eq", <<"index", "
             Cmp("eq", <<"call", "x", "twice_a">>, L(2)), Cmp("ge", <<"call1", "x", "plus", 1>>, L(2)),
             Cmp("lt", <<"call", "y", "twice_a">>, <<"call1", "x", "plus", 1>>),
             Cmp("eq", <<"attr", "s", "b">>, <<"attr", "x", "b">>), Cmp("ne", <<"var", "x">>, <<"var", "s">>) }
-OtherAtoms == { Cmp("eq", <<"attr", "x", "a">>, L(0)), Cmp("eq", <<"attr", "y", "b">>, L(1)) }
-Lits == TAtoms \cup { <<"not", p>> : p \in TAtoms }
+\* a truth-valued attribute used directly as a condition:  x.a  holds iff the value is truthy (a, b are 0 / 1)
+TruthAtoms == { <<"truth", <<"attr", "x", "a">> >>, <<"truth", <<"attr", "y", "b">> >> }
+OtherAtoms == { Cmp("eq", <<"attr", "x", "a">>, L(0)), Cmp("eq", <<"attr", "y", "b">>, L(1)), Cmp("eq", <<"attr", "x", "a">>, <<"attr", "y", "b">>),
+                Cmp("ge", <<"attr", "x", "a">>, <<"attr", "x", "b">>) }
+Lits == TAtoms \cup TruthAtoms \cup { <<"not", p>> : p \in TAtoms \cup TruthAtoms }
 Conds == Lits \cup { <<"and", p, q>> : p \in Lits, q \in Lits \cup OtherAtoms } \cup { <<"and", q, p>> : p \in Lits, q \in OtherAtoms }
               \cup { <<"or", p, q>> : p \in Lits, q \in Lits \cup OtherAtoms }
 TermVal(t, g) == CASE t[1] = "lit" -> t[2] [] t[1] = "var" -> g[t[2]]
@@ -32,13 +36,14 @@ TermVal(t, g) == CASE t[1] = "lit" -> t[2] [] t[1] = "var" -> g[t[2]]
 Apply(op, l, r) == CASE op = "eq" -> l = r [] op = "ne" -> l # r [] op = "lt" -> l < r [] OTHER -> l >= r
 RECURSIVE Sat(_, _)
 Sat(e, g) == CASE e[1] = "cmp" -> Apply(e[2], TermVal(e[3], g), TermVal(e[4], g))
+               [] e[1] = "truth" -> TermVal(e[2], g) # 0
                [] e[1] = "and" -> Sat(e[2], g) /\ Sat(e[3], g)
                [] e[1] = "or" -> Sat(e[2], g) \/ Sat(e[3], g)
                [] OTHER -> ~Sat(e[2], g)
 RECURSIVE VarsOf(_)
 VarsOf(e) == CASE e[1] = "lit" -> {} [] e[1] \in {"var", "attr", "index", "call", "call1"} -> {e[2]}
                [] e[1] = "cmp" -> VarsOf(e[3]) \cup VarsOf(e[4])
-               [] e[1] = "not" -> VarsOf(e[2]) [] OTHER -> VarsOf(e[2]) \cup VarsOf(e[3])
+               [] e[1] \in {"not", "truth"} -> VarsOf(e[2]) [] OTHER -> VarsOf(e[2]) \cup VarsOf(e[3])
 Doms == { <<"o3">>, <<"o1", "o2", "o3", "o4">>, <<"o4", "o2", "o1">> }
 \* x is always selected; y in addition when the condition mentions it (a union that leaves a selected variable unbound is F02's business)
 SelOf(e) == IF "y" \in VarsOf(e) THEN { <<"x">>, <<"x", "y">> } ELSE { <<"x">> }
